@@ -476,6 +476,7 @@ func TestC01(t *testing.T) {
 			}
 		}
 		tr, err := newTrio(trioOptions{
+			Trace: variant.verbose, // one variant runs with trace logging switched on
 			Mutate: func(ep string, c *config.Configuration) {
 				c01Prototypes(c)
 				if variant.def {
